@@ -422,6 +422,81 @@ theorem h_h_eq (a : Nat) : h_h (R := R) a = Op.h a := by
 
 end hgate
 
+/-! ### virtual registers (`register/virtl.rs`) -/
+
+def vregOfModel (v : VReg) : VRegG := ⟨v.bits⟩
+
+theorem vreg_new_with_mask_eq (m : Nat) : vreg_new_with_mask m = vregOfModel (VReg.ofMask m) := by
+  have := bitsList_eq m
+  unfold bitsList at this
+  simp [vreg_new_with_mask, vregOfModel, VReg.ofMask, this]
+
+theorem vreg_new_eq (n : Nat) : vreg_new n = vregOfModel (VReg.new n) := by
+  unfold vreg_new VReg.new CReg.maskOf W
+  rw [vreg_new_with_mask_eq]
+  by_cases h : n ≥ 64
+  · simp [h, Qvnt.notW]
+  · have hn : n < 64 := by omega
+    simp [h, shl_one n hn, mask_eq n hn]
+
+theorem vreg_index_eq (v : VReg) (i : Nat) : vreg_index (vregOfModel v) i = (v.idx i).getD 0 := by
+  simp [vreg_index, vregOfModel, VReg.idx, List.getD_eq_getElem?_getD]
+
+theorem foldl_filterMap' {α β γ : Type} (f : β → Option γ) (g : α → γ → α) (l : List β) (a : α) :
+    List.foldl g a (List.filterMap f l) = List.foldl (fun acc b => match f b with | some c => g acc c | none => acc) a l := by
+  induction l generalizing a with
+  | nil => rfl
+  | cons x xs ih =>
+    simp only [List.filterMap_cons, List.foldl_cons]
+    cases f x <;> simp [ih]
+
+theorem vreg_index_by_eq (v : VReg) (f : Nat → Bool) : vreg_index_by (vregOfModel v) f = v.idxBy f := by
+  unfold vreg_index_by VReg.idxBy vregOfModel Rs.enumerate
+  simp only [foldl_filterMap', List.foldl_map]
+  congr 1
+  funext acc p
+  cases f p.2 <;> simp
+
+theorem quant_get_vreg_eq (r : QReg R) : quant_get_vreg (ofModel r) = vregOfModel r.getVReg := by
+  simp [quant_get_vreg, QReg.getVReg, ofModel, vreg_new_with_mask_eq]
+
+theorem quant_get_vreg_by_eq (r : QReg R) (mask : Nat) :
+    quant_get_vreg_by (ofModel r) mask = (r.getVRegBy mask).map vregOfModel := by
+  unfold quant_get_vreg_by QReg.getVRegBy
+  simp only [ofModel, notW_eq, vreg_new_with_mask_eq]
+  by_cases h : mask &&& CReg.notW r.qMask = 0 <;> simp [h]
+
+/-! ### the interpreter's block queue (`qasm/int/ext_op.rs`) -/
+section extop
+variable [Add R] [Sub R] [Mul R] [Div R] [Neg R] [Zero R] [One R] [Consts R]
+
+theorem extop_push_eq (e : ExtOp R) (o : MultiOp R) : extop_push e o = e.push o := by
+  unfold extop_push ExtOp.push
+  by_cases h : e.tail.isEmpty
+  · simp only [h, ↓reduceIte]
+    cases hl : e.blocks.getLast? with
+    | none => simp
+    | some p =>
+      obtain ⟨l, sep⟩ := p
+      cases sep <;> simp
+  · simp [h]
+
+/-- `append`: the receiver becomes the model's `append`, the argument is left empty (`mem::take`) -/
+theorem extop_append_eq (e other : ExtOp R) :
+    (extop_append e other).1 = e.append other ∧ (extop_append e other).2 = { blocks := [], tail := [] } := by
+  unfold extop_append ExtOp.append
+  refine ⟨?_, rfl⟩
+  by_cases h : e.tail.isEmpty
+  · simp [h]
+  · simp only [h, Bool.not_false, ↓reduceIte, Bool.false_eq_true]
+    cases hl : e.blocks.getLast? with
+    | none => simp
+    | some p =>
+      obtain ⟨l, sep⟩ := p
+      cases sep <;> simp
+
+end extop
+
 /-- every `match` on the threading model in the translated functions has a parallel arm that is the
 sequential arm with rayon's adaptors (`par_iter`, `par_iter_mut`, `into_par_iter`, `apply_sync`) -/
 theorem parTwins_all : (parTwins.all (fun p => p.2)) = true := by decide
